@@ -43,3 +43,12 @@ def py_files(root=None):
             continue
         out.extend(os.path.join(d, f) for f in sorted(fs) if f.endswith(".py"))
     return out
+
+
+def tmap(fn, items, threads=None):
+    """Thread map: for jobs that themselves start a child process (watchdogs, subprocess runs)"""
+    from concurrent.futures import ThreadPoolExecutor
+
+    items = list(items)
+    with ThreadPoolExecutor(max_workers=min(threads or NPROC, max(1, len(items)))) as ex:
+        return list(ex.map(fn, items))
